@@ -64,4 +64,20 @@ CLAIMED["C05"] = {
     "note": "Not covered yet: the matching function check_event itself against NIP-01 and against the stored-query predicate (planned), interleavings of concurrent connections (outside this technique, A4); that dict.values() yields every value once is assumed.",
 }
 
+CLAIMED["C04"] = {
+    "category": "proof",
+    "text": "util.event_as_json: for every canonical event and every subscription id the returned text lies in the regular language of well-formed EVENT frames (JSON string literals as produced by encode_basestring, hex strings, decimal integers, the tag array built by two nested joins) -- decided as a regular-language inclusion of the language tracked through the f-strings/joins in the language of the frame grammar -- and carries each scalar field under its own key with its own value and the client's subscription id (JSON-encoded). web.send_subscriptions: every item taken from the queue yields at most one frame, and the frame handed to the socket is a well-formed EVENT frame (via event_as_json's contract) or EOSE frame carrying that item's subscription id. DBStorage.add_event: the INSERT parameters are exactly the submitted event's fields (id/pubkey/sig through bytes.fromhex).",
+    "note": "Assumed: json.encoder.encode_basestring returns a JSON string literal decoding to its argument; rapidjson produces the OK/NOTICE/AUTH frames from python lists; events reaching the serializer are canonical (is_canonical at admission, C03). Not covered yet: value-level equality of the tags array (only its shape), event_from_tuple / msgpack round trips, /e/<id>, integer tag items (modelled tags are lists of strings)." + _LMDB_PENDING,
+}
+CLAIMED["C17"] = {
+    "category": "proof",
+    "text": "QueryGarbageCollector.collect: executes exactly one statement whose text lies in the fixed grammar of the GC template with a single decimal literal, and that literal is str(int(now)) for the current clock read (a definition-time default would be caught: defaults are modelled as values unrelated to call time); the meaning of the statement's comparison 'tags.value < literal' is stated against the property (well-formed decimal timestamp earlier than now) -- that obligation is refuted and is the listed known finding (string comparison).",
+    "note": "Assumed: SQL semantics of the statement as described in assumption GCSQL (kind range, TEXT comparison by code point). Not covered yet: the LMDB collector (KVGarbageCollector), ephemeral bypass in kv.add_event, the periodic driver.",
+}
+CLAIMED["C20"] = {
+    "category": "proof",
+    "text": "NotifyServer.handle_notify: every chunk consumed from an origin is exactly 32 bytes (a whole id), each registered peer other than the origin is written that same chunk exactly once per chunk, the origin never (no echo), nobody else; NotifyClient.connect: every read consumes exactly one whole id, each id read is looked up exactly once as its hex form and a found event is fanned out locally exactly once, EOF ends the loop quietly; NotifyClient.notify writes the 32 id bytes once.",
+    "note": "Assumed: asyncio stream contracts (readexactly returns exactly n bytes in order or raises IncompleteReadError; write appends to the peer's stream), dict iteration yields each registered peer once. Not covered: peers joining/leaving while drain() yields (RuntimeError ends the origin's handler), the 2 s connect delay, events not yet written by the LMDB writer when the peer looks them up, notify_other_processes/setup wiring.",
+}
+
 NOT_APPLICABLE = {}
